@@ -109,24 +109,42 @@ func runC11(w *World, r *Report) {
 			r.bad("process-once", row.handler+"/verified-set", w.Pos(fn.Pos()), "the verified gossiper set of the processed item must exist", why)
 			continue
 		}
-		notSeen := callEdges(fn, ").HasHash", "false", argPaths(row.item+".Hash"))
-		notListed := lookupEdges(fn, set, isSelfAddressCall, false)
-		var effects []ssa.CallInstruction
+		curBinder = nil
+		setPath := pathOf(set)
+		notSeen := callSpec(").HasHash", "false", argPathsR(row.item+".Hash"))
+		notListed := func(fn2 *ssa.Function, _ resolver) []Edge { // the verified set is a value of the handler: decided there
+			if fn2 != fn {
+				return nil
+			}
+			return lookupEdges(fn, set, isSelfAddressCall, false)
+		}
+		ownCalls := func(suf string) []dcall { // calls of the handler itself or of helpers it calls (not of its function literals)
+			var out []dcall
+			for _, d := range deepCalls(fn, bySuffix(suf), deepDepth) {
+				if len(d.chain) == 0 && d.c.Parent() != fn {
+					continue
+				}
+				out = append(out, d)
+			}
+			return out
+		}
+		var effects []dcall
 		for _, suf := range []string{".sendToAccountant", ").SaveAwaitedTransaction", ").RemoveAwaitedTransaction", "." + row.forward, ").AddLeaf"} {
-			effects = append(effects, callsTo2(fn, suf)...)
+			effects = append(effects, ownCalls(suf)...)
 		}
 		if len(effects) < 2 {
 			r.bad("process-once", row.handler+"/effects", w.Pos(fn.Pos()), "processing effects must exist", fmt.Sprintf("%d", len(effects)))
 		}
 		for _, e := range effects {
-			r.check(behind(e, notSeen), "process-once", row.handler+"/"+shortCallee(e)+"/not-seen", lineOf(w, e), shortCallee(e)+" only if the item's hash was not seen recently", "reachable without crossing HasHash == false")
-			r.check(behind(e, notListed), "process-once", row.handler+"/"+shortCallee(e)+"/self-not-listed", lineOf(w, e), shortCallee(e)+" only if this node is not in the verified gossiper set", "reachable without crossing the absent edge of set[self]")
+			r.check(behindDeepSite(e, notSeen), "process-once", row.handler+"/"+shortCallee(e.c)+"/not-seen", lineOf(w, e.c), shortCallee(e.c)+" only if the item's hash was not seen recently", "reachable without crossing HasHash == false")
+			r.check(behindDeepSite(e, notListed), "process-once", row.handler+"/"+shortCallee(e.c)+"/self-not-listed", lineOf(w, e.c), shortCallee(e.c)+" only if this node is not in the verified gossiper set", "reachable without crossing the absent edge of set[self]")
 		}
 		// forward after acceptance
-		var accept []Edge
+		var accept gspec
 		var acceptDesc string
+		forwards := ownCalls("." + row.forward)
 		if row.handler == "GossipVrx" {
-			accept = callEdges(fn, ".sendToAccountant", "errnil", argPaths("_", row.item))
+			accept = callSpec(".sendToAccountant", "errnil", argPathsR("_", row.item))
 			acceptDesc = "sendToAccountant(ctx, vg.Vertex) == nil"
 		} else {
 			var trxv ssa.Value
@@ -136,8 +154,8 @@ func runC11(w *World, r *Report) {
 					trxv = resultAt(c, 0)
 				}
 			}
-			conv := callEdges(fn, ".ProtoTrxToTrx", "errnil", argPaths(row.item))
-			ver := callEdges(fn, ").VerifyIssuer", "errnil", func(recv ssa.Value, _ []ssa.Value) bool {
+			conv := callSpec(".ProtoTrxToTrx", "errnil", argPathsR(row.item))
+			ver := callSpec(").VerifyIssuer", "errnil", func(_ resolver, recv ssa.Value, _ []ssa.Value) bool {
 				// receiver is &trx where trx holds the conversion result
 				if al, ok := strip(recv).(*ssa.Alloc); ok && trxv != nil {
 					for _, ref := range *al.Referrers() {
@@ -149,41 +167,66 @@ func runC11(w *World, r *Report) {
 				return false
 			})
 			acceptDesc = "ProtoTrxToTrx(tg.Trx) and trx.VerifyIssuer succeeded"
-			if len(conv) > 0 && len(ver) > 0 {
-				// both must be crossed: check separately below
-				for _, fw := range callsTo2(fn, "."+row.forward) {
-					r.check(behind(fw, conv), "forward-after-accept", row.handler+"/forward-after-conversion", lineOf(w, fw), "forward only after the wire transaction converted", "not dominated")
-				}
-				accept = ver
+			for _, fw := range forwards {
+				r.check(behindDeepSite(fw, conv), "forward-after-accept", row.handler+"/forward-after-conversion", lineOf(w, fw.c), "forward only after the wire transaction converted", "not dominated")
 			}
+			accept = ver
 		}
-		for _, fw := range callsTo2(fn, "."+row.forward) {
-			_, a := callArgs(fw)
-			if len(a) < 3 {
-				r.bad("forward-after-accept", row.handler+"/forwards-item-and-set", lineOf(w, fw), "the forward helper receives (ctx, message, verified set)", fmt.Sprintf("called with %d arguments: the skip decision no longer receives the verified set", len(a)))
-				continue
-			}
-			r.check(behind(fw, accept), "forward-after-accept", row.handler+"/forward-after-acceptance", lineOf(w, fw), "forward only behind: "+acceptDesc, "forward reachable without crossing the acceptance success edge")
-			// forwards the very message and the verified set
-			r.check(pathOf(a[1]) == row.msg && sameVal(a[2], set), "forward-after-accept", row.handler+"/forwards-item-and-set", lineOf(w, fw), "the processed message is forwarded with the verified set", fmt.Sprintf("forwarding (%s, %s)", pathOf(a[1]), pathOf(a[2])))
-			// self inserted into the set before forwarding
-			selfIn := false
-			instrsOf(fn, func(in ssa.Instruction) {
-				if mu, ok := in.(*ssa.MapUpdate); ok && sameVal(mu.Map, set) && isSelfAddressCall(mu.Key) && mu.Block().Dominates(fw.Block()) {
-					selfIn = true
+		// does value v, seen in frame fr, derive from toSlice(the verified set)?
+		fromSet := func(v ssa.Value, fr *frame) bool {
+			for _, o := range originsDeep(v, deepDepth) {
+				c, ok := strip(o).(*ssa.Call)
+				if !ok || !strings.HasSuffix(calleeName(c), ".toSlice") || len(c.Call.Args) == 0 {
+					continue
 				}
-			})
-			r.check(selfIn, "forward-after-accept", row.handler+"/self-in-set", lineOf(w, fw), "the node adds itself to the set before forwarding (so peers skip it and it is not sent back)", "no dominating set[self] = …")
-			// outgoing list rebuilt from the set
-			listOK := false
-			instrsOf(fn, func(in ssa.Instruction) {
-				if st, ok := in.(*ssa.Store); ok && pathOf(st.Addr) == row.listPath && st.Block().Dominates(fw.Block()) {
-					if c, ok := strip(st.Val).(*ssa.Call); ok && strings.HasSuffix(calleeName(c), ".toSlice") && sameVal(c.Call.Args[0], set) {
-						listOK = true
+				if c.Parent() == fr.cx.fn {
+					if fr.cx.res(c.Call.Args[0]) == setPath {
+						return true
+					}
+					continue
+				}
+				for _, hc := range helperCalls(fr.cx.fn) {
+					if hc.Common().StaticCallee() == c.Parent() && downRes(fr.cx.res, hc)(c.Call.Args[0]) == setPath {
+						return true
 					}
 				}
+			}
+			return false
+		}
+		for _, fw := range forwards {
+			_, a := callArgs(fw.c)
+			if len(a) < 3 {
+				r.bad("forward-after-accept", row.handler+"/forwards-item-and-set", lineOf(w, fw.c), "the forward helper receives (ctx, message, verified set)", fmt.Sprintf("called with %d arguments: the skip decision no longer receives the verified set", len(a)))
+				continue
+			}
+			r.check(behindDeepSite(fw, accept), "forward-after-accept", row.handler+"/forward-after-acceptance", lineOf(w, fw.c), "forward only behind: "+acceptDesc, "forward reachable without crossing the acceptance success edge")
+			// forwards the very message and the verified set
+			r.check(fw.path(a[1]) == row.msg && sameVal(fw.argValue(a[2]), set), "forward-after-accept", row.handler+"/forwards-item-and-set", lineOf(w, fw.c), "the processed message is forwarded with the verified set", fmt.Sprintf("forwarding (%s, %s)", fw.path(a[1]), fw.path(a[2])))
+			// self inserted into the set, and the outgoing list rebuilt from the set, on every way to the forward
+			reachesForwardAvoiding := func(stop func(ssa.Instruction, *frame) bool) bool {
+				reached := false
+				dw := newDeepWalk(func(in ssa.Instruction, fr *frame) bool {
+					if stop(in, fr) {
+						return true
+					}
+					if in == fw.c.(ssa.Instruction) {
+						reached = true
+					}
+					return reached
+				})
+				dw.run(topFrame(fn), fn.Blocks[0], 0)
+				return reached
+			}
+			selfIn := !reachesForwardAvoiding(func(in ssa.Instruction, fr *frame) bool {
+				mu, ok := in.(*ssa.MapUpdate)
+				return ok && isSelfAddressCall(mu.Key) && fr.cx.res(mu.Map) == setPath
 			})
-			r.check(listOK, "forward-after-accept", row.handler+"/list-from-set", lineOf(w, fw), "the outgoing gossiper list is the verified set plus self", "list not rebuilt from the set before forwarding")
+			r.check(selfIn, "forward-after-accept", row.handler+"/self-in-set", lineOf(w, fw.c), "the node adds itself to the set before forwarding (so peers skip it and it is not sent back)", "the forward is reachable without set[self] = …")
+			listOK := !reachesForwardAvoiding(func(in ssa.Instruction, fr *frame) bool {
+				st, ok := in.(*ssa.Store)
+				return ok && fr.cx.res(st.Addr) == row.listPath && fromSet(st.Val, fr)
+			})
+			r.check(listOK, "forward-after-accept", row.handler+"/list-from-set", lineOf(w, fw.c), "the outgoing gossiper list is the verified set plus self", "list not rebuilt from the set before forwarding")
 		}
 	}
 	// sendToAccountant summary
@@ -266,7 +309,17 @@ func runC11(w *World, r *Report) {
 					}
 				})
 				nAcc++
-				if unlockDefer == nil || !unlockDefer.Block().Dominates(in.Block()) || (unlockDefer.Block() == in.Block() && indexIn(in.Block(), unlockDefer) > indexIn(in.Block(), in)) {
+				// a helper that never touches the mutex itself runs entirely inside its callers' critical section
+				// (the lockset at its entry, checked below, is the intersection over all call sites)
+				touchesMutex := false
+				instrsOf(fn, func(x ssa.Instruction) {
+					if ci, ok := x.(ssa.CallInstruction); ok {
+						if _, _, id, ok := lockOp(ci); ok && id == "cache.Flashback.mux" {
+							touchesMutex = true
+						}
+					}
+				})
+				if touchesMutex && (unlockDefer == nil || !unlockDefer.Block().Dominates(in.Block()) || (unlockDefer.Block() == in.Block() && indexIn(in.Block(), unlockDefer) > indexIn(in.Block(), in))) {
 					atomicOK = false
 				}
 				if !fli.At(in).Has("cache.Flashback.mux", "W") {
@@ -476,17 +529,30 @@ func everyEntryConsidered(w *World, r *Report, rule string, fn *ssa.Function, mu
 		}
 	}
 	skipped, dropped := 0, 0
-	var verifyCalls []ssa.Instruction
-	for _, c := range callsTo2(fn, ").Verify") {
-		verifyCalls = append(verifyCalls, c.(ssa.Instruction))
-	}
+	isVerify := passesDeep(fn, idRes, func(in ssa.Instruction, _ resolver) bool {
+		c, ok := in.(ssa.CallInstruction)
+		return ok && strings.HasSuffix(calleeName(c), ").Verify")
+	}, 1)
+	verifyOK := deepEdges(fn, idRes, callSpec(").Verify", "errnil", nil), 1)
 	if hdr != nil && len(hdr.Succs) == 2 {
 		_ = okv
-		// malformed-element skips: edges carrying a nil/len fact about the ranged member that lead back to the header
+		// malformed-element skips: edges carrying a nil/len fact about the ranged member that lead back to the header,
+		// or the outcome of a helper that only looks at the shape of the member (nil-ness, field lengths)
 		isMalformedEdge := func(e Edge) bool {
 			for _, ft := range edgeFacts(e) {
 				if ft.kind == fIsNil && strings.HasPrefix(pathOf(ft.x), member) {
 					return true
+				}
+				if ft.kind == fTrue || ft.kind == fFalse {
+					if c, ok := strip(ft.x).(*ssa.Call); ok {
+						if h := samePkgHelper(fn, c); h != nil && len(c.Call.Args) > 0 && isShapePredicate(h) {
+							for _, a := range c.Call.Args {
+								if pathOf(a) == member {
+									return true
+								}
+							}
+						}
+					}
 				}
 			}
 			iff, ok := e.From.Instrs[len(e.From.Instrs)-1].(*ssa.If)
@@ -508,10 +574,8 @@ func everyEntryConsidered(w *World, r *Report, rule string, fn *ssa.Function, mu
 			}
 		}
 		walkFrom(nil, hdr.Succs[0], edgeSet(cut), func(x ssa.Instruction) bool {
-			for _, vc := range verifyCalls {
-				if x == vc {
-					return true
-				}
+			if isVerify(x) {
+				return true
 			}
 			if x.Block() == hdr {
 				skipped++
@@ -519,22 +583,89 @@ func everyEntryConsidered(w *World, r *Report, rule string, fn *ssa.Function, mu
 			}
 			return false
 		})
-		for _, c := range callsTo2(fn, ").Verify") {
-			for _, se := range passErrNil(c) {
-				walkFrom(nil, se.To(), nil, func(x ssa.Instruction) bool {
-					if x == ssa.Instruction(mu) {
-						return true
-					}
-					if x.Block() == hdr {
-						dropped++
-						return true
-					}
-					return false
-				})
-			}
+		for _, se := range verifyOK {
+			walkFrom(nil, se.To(), nil, func(x ssa.Instruction) bool {
+				if x == ssa.Instruction(mu) {
+					return true
+				}
+				if x.Block() == hdr {
+					dropped++
+					return true
+				}
+				return false
+			})
+		}
+		if len(verifyOK) == 0 {
+			dropped++
 		}
 	}
 	r.check(hdr != nil && skipped == 0 && dropped == 0, rule, "verifyGossipers/every-entry-considered", lineOf(w, mu), "each listed gossiper is verified unless it is malformed (nil / wrong digest length), and every verified one enters the set", fmt.Sprintf("%d ways to skip verification for a well-formed entry, %d ways to drop a verified entry", skipped, dropped))
+}
+
+// isShapePredicate: a bool helper all of whose comparisons look only at nil-ness and field lengths of its
+// parameters (its outcome says "malformed", nothing about content).
+func isShapePredicate(h *ssa.Function) bool {
+	if h.Signature.Results().Len() != 1 || !isBoolType(h.Signature.Results().At(0).Type()) {
+		return false
+	}
+	isParamRooted := func(v ssa.Value) bool {
+		for i := 0; i < 8; i++ {
+			switch x := v.(type) {
+			case *ssa.Parameter:
+				return true
+			case *ssa.UnOp:
+				v = x.X
+			case *ssa.FieldAddr:
+				v = x.X
+			case *ssa.Field:
+				v = x.X
+			default:
+				return false
+			}
+		}
+		return false
+	}
+	shapeOperand := func(v ssa.Value) bool {
+		if _, ok := v.(*ssa.Const); ok {
+			return true
+		}
+		if c, ok := v.(*ssa.Call); ok {
+			if b, ok := c.Call.Value.(*ssa.Builtin); ok && b.Name() == "len" {
+				return isParamRooted(c.Call.Args[0])
+			}
+			return false
+		}
+		return isParamRooted(v) && isPointerLike(v.Type())
+	}
+	ok := true
+	n := 0
+	instrsOf(h, func(in ssa.Instruction) {
+		switch x := in.(type) {
+		case *ssa.BinOp:
+			n++
+			if !shapeOperand(x.X) || !shapeOperand(x.Y) {
+				ok = false
+			}
+		case ssa.CallInstruction:
+			if c, isCall := x.(*ssa.Call); isCall {
+				if b, isB := c.Call.Value.(*ssa.Builtin); isB && b.Name() == "len" {
+					return
+				}
+			}
+			ok = false
+		case *ssa.Store, *ssa.MapUpdate, *ssa.Send:
+			ok = false
+		}
+	})
+	return ok && n > 0
+}
+
+func isPointerLike(t types.Type) bool {
+	switch t.Underlying().(type) {
+	case *types.Pointer, *types.Slice, *types.Map, *types.Interface:
+		return true
+	}
+	return false
 }
 
 func runC12(w *World, r *Report) {
@@ -557,28 +688,30 @@ func runC12(w *World, r *Report) {
 			member := strings.TrimSuffix(kp, ".Address")
 			ok := false
 			why := "no Verify call bound to the inserted member"
-			for _, c := range callsTo2(fn, ").Verify") {
-				_, a := callArgs(c)
+			bound := callSpec(").Verify", "errnil", func(res resolver, _ ssa.Value, a []ssa.Value) bool {
+				if len(a) < 4 {
+					return false
+				}
 				mc, isCall := strip(a[0]).(*ssa.Call)
 				if !isCall || !strings.HasSuffix(calleeName(mc), ".createGossiperMessageToSign") {
 					why = "verified message is not createGossiperMessageToSign(…)"
-					continue
+					return false
 				}
 				if len(mc.Call.Args) < 2 {
 					why = "the signed gossiper statement is built from fewer than two inputs: address and item hash must both contribute"
-					continue
+					return false
 				}
-				bind := pathOf(mc.Call.Args[0]) == kp && pathOf(mc.Call.Args[1]) == hash &&
-					pathOf(a[1]) == member+".Signature" && pathOf(a[2]) == member+".Digest" && pathOf(a[3]) == kp
-				if !bind {
-					why = fmt.Sprintf("Verify(msg(%s,%s), %s, %s, %s) for inserted key %s", pathOf(mc.Call.Args[0]), pathOf(mc.Call.Args[1]), pathOf(a[1]), pathOf(a[2]), pathOf(a[3]), kp)
-					continue
+				if res(mc.Call.Args[0]) == kp && res(mc.Call.Args[1]) == hash &&
+					res(a[1]) == member+".Signature" && res(a[2]) == member+".Digest" && res(a[3]) == kp {
+					return true
 				}
-				if behind(mu, passErrNil(c)) && pathOf(mu.Value) == member {
-					ok = true
-				} else {
-					why = "insertion not behind the success edge of the verification"
-				}
+				why = fmt.Sprintf("Verify(msg(%s,%s), %s, %s, %s) for inserted key %s", res(mc.Call.Args[0]), res(mc.Call.Args[1]), res(a[1]), res(a[2]), res(a[3]), kp)
+				return false
+			})
+			if behind(mu, deepEdges(fn, idRes, bound, 1)) && pathOf(mu.Value) == member {
+				ok = true
+			} else if why == "no Verify call bound to the inserted member" {
+				why = "insertion not behind the success edge of the verification"
 			}
 			r.check(ok, "entry-verified", "verifyGossipers/insert", lineOf(w, mu), "only entries whose signature verifies for (their own address, this item's hash) enter the set", why)
 			everyEntryConsidered(w, r, "entry-verified", fn, mu, member)
